@@ -21,6 +21,8 @@ def _functions_of(ns, modname):
             for attr, val in list(vars(obj).items()):
                 q = '%s.%s' % (name, attr)
                 if isinstance(val, types.FunctionType):
+                    while isinstance(getattr(val, '__wrapped__', None), types.FunctionType):
+                        val = val.__wrapped__          # a harness probe wraps the real method: mutate the real one
                     out[q] = val
                 elif isinstance(val, (staticmethod, classmethod)):
                     out[q] = val.__func__
